@@ -735,7 +735,64 @@ pub fn honest_cases(rng: &mut Rng, thorough: bool) -> Vec<BodyCase> {
     v
 }
 
+/// Cuts every script after its first error: a stream that stays failed once it has failed (the
+/// proviso of C20, and the "failing stream" of C07).
+pub fn stay_failed(scripts: &mut [Vec<Ev>]) {
+    for s in scripts.iter_mut() {
+        if let Some(k) = s.iter().position(|e| *e == Ev::Err) {
+            s.truncate(k + 1);
+        }
+    }
+}
+
+/// Streams with a transient failure: one or two errors somewhere, then the rest of the range all
+/// the same (what `ChunkedReadFile` does when a file shrinks and grows back). For the properties
+/// that make no assumption about streams staying failed (C01's "never more than announced", C12).
+pub fn transient_cases() -> Vec<BodyCase> {
+    let mut v = vec![];
+    for (name, len, range) in shapes() {
+        let mut q = HReq::get();
+        q.range = range.clone();
+        let e = ent(len);
+        let o = observe_serve(&q, &e);
+        let rs = ranges_of(&o);
+        for (i, &(a, b)) in rs.iter().enumerate() {
+            for comp in compositions(&content(a..b), 3) {
+                for at in 0..=comp.len() {
+                    for errs in [1usize, 2] {
+                        let mut faulty: Vec<Ev> = comp[..at].iter().map(|c| Ev::Chunk(c.clone())).collect();
+                        faulty.extend(std::iter::repeat(Ev::Err).take(errs));
+                        faulty.extend(comp[at..].iter().map(|c| Ev::Chunk(c.clone())));
+                        let scripts: Vec<Vec<Ev>> = rs
+                            .iter()
+                            .enumerate()
+                            .map(|(j, &(x, y))| if j == i { faulty.clone() } else { vec![Ev::Chunk(content(x..y))] })
+                            .collect();
+                        v.push(BodyCase {
+                            q: q.clone(),
+                            e: e.clone(),
+                            polls: scripts.iter().map(|s| s.len()).sum::<usize>() + 2 * rs.len() + 6,
+                            scripts,
+                            honest: false,
+                            shape: format!("{}:p{}:transient", name, i),
+                        });
+                    }
+                }
+            }
+        }
+    }
+    v
+}
+
 pub fn fault_cases(rng: &mut Rng, thorough: bool) -> Vec<BodyCase> {
+    let mut v = fault_cases_raw(rng, thorough);
+    for c in v.iter_mut() {
+        stay_failed(&mut c.scripts);
+    }
+    v
+}
+
+fn fault_cases_raw(rng: &mut Rng, thorough: bool) -> Vec<BodyCase> {
     let mut v = vec![];
     for (name, len, range) in shapes() {
         let mut q = HReq::get();
@@ -843,6 +900,9 @@ pub fn c01(em: &mut Emit, thorough: bool, seed: u64) {
     }
     // "no body ever delivers more than was announced" also under faults
     for c in fault_cases(&mut rng, false).into_iter().step_by(3) {
+        run_case(em, &c, &pred_c01);
+    }
+    for c in transient_cases().into_iter().step_by(2) {
         run_case(em, &c, &pred_c01);
     }
     // multipart bodies around 2^64 bytes: the announced length is the layout's, or the answer is 413
@@ -1209,6 +1269,9 @@ pub fn c12_serve(em: &mut Emit, thorough: bool, seed: u64) {
         run_case(em, &c, &pred_c12);
     }
     for c in fault_cases(&mut rng, false).into_iter().step_by(2) {
+        run_case(em, &c, &pred_c12);
+    }
+    for c in transient_cases() {
         run_case(em, &c, &pred_c12);
     }
 }
